@@ -372,7 +372,7 @@ unsigned MessageBase::copy_legal(MessageBase *to, bool force) const
 			GroupBase *gb;
 			if (pp._field_traits & FieldTrait::group && (gb = find_group(pp._fnum)))
 			{
-				GroupBase *gb1(to->find_group(pp._fnum));
+				GroupBase *gb1(to->find_add_group(pp._fnum)); // not every target holds its groups before they are used (header NoHops)
 				for (const auto *qq : gb->_msgs)
 				{
 					MessageBase *grc(gb1->create_group(true));
